@@ -97,6 +97,17 @@ def add_extras(files: T.Dict[str, str], setup_args: T.Sequence[str], seed: int,
             env['PKG_CONFIG_PATH'] = ':'.join(_perm(rng, ['/xe/pc', '/xf/pc', '/xg/pc', '/xe/pc']))
         if 'cmake_prefix_path' not in taken and rng.random() < 0.5:
             env['CMAKE_PREFIX_PATH'] = ':'.join(_perm(rng, ['/xh', '/xi', '/xj']))
+    # ---- cross build with per-machine pkg-config paths (dependency cache keyed per machine) ------------------
+    cross_pc = False
+    if 'pkg_config_path' not in taken and 'PKG_CONFIG_PATH' not in env and feat('cross_pcdeps', 0.25):
+        cross_pc = True
+        files['xcross.ini'] = ("[binaries]\nc = 'cc'\nar = 'ar'\nstrip = 'strip'\npkg-config = 'pkg-config'\n\n"
+                               "[host_machine]\nsystem = 'linux'\ncpu_family = 'x86_64'\ncpu = 'x86_64'\nendian = 'little'\n")
+        for d, ver in (('a', '1.0'), ('b', '2.0')):
+            files[f'xpc/{d}/xpcdep.pc'] = f'Name: xpcdep\nDescription: variant {d}\nVersion: {ver}\nCflags: -DXPC_FROM_{d.upper()}\n'
+        # '@SRC@' is replaced by the absolute source directory when the command line is built
+        args += ['--cross-file', '@SRC@/xcross.ini', '-Dpkg_config_path=@SRC@/xpc/a', '-Dbuild.pkg_config_path=@SRC@/xpc/a']
+        taken.update({'pkg_config_path', 'build.pkg_config_path'})
     # ---- project options file ------------------------------------------------------------------
     have_opts = False
     if 'meson.options' not in files and 'meson_options.txt' not in files and feat('project_options', 0.8):
@@ -237,6 +248,12 @@ def add_extras(files: T.Dict[str, str], setup_args: T.Sequence[str], seed: int,
                 f"c_args: {qlst(_some(rng, ['-DXE_B', '-DXE_A', '-UXE_C']))}, link_args: ['-Wl,-z,now', '-Wl,-O1'], install: true, "
                 f"install_rpath: '/opt/x/lib:/opt/y/lib', build_rpath: '/tmp/xb', implicit_include_directories: {rng.choice(['true', 'false'])}, "
                 f"extra_files: files('xsrc/README.x', 'xdata/d1.txt'){objs})")
+    if cross_pc:
+        post.append("x_pcn = dependency('xpcdep', native: true)")
+        post.append("x_pch = dependency('xpcdep', native: false)")
+        post.append("configure_file(output: 'xpc_versions.h', configuration: {'XPC_NATIVE': x_pcn.version(), 'XPC_HOST': x_pch.version()})")
+        post.append("executable('xpcnat', 'xsrc/xmain.c', dependencies: x_pcn, native: true)")
+        post.append("executable('xpchost', 'xsrc/xmain.c', dependencies: x_pch)")
     if ext_deps:
         post.append(f"x_extexe = executable('xextexe', 'xsrc/xmain.c', dependencies: {lst(ext_deps)})")
         post.append(f"x_extlib = shared_library('xextlib', 'xsrc/xmod.c', dependencies: {lst(_perm(rng, ext_deps)[:3])})")
